@@ -138,9 +138,13 @@ type endInfo struct {
 // allowedEnds: stream positions a checkpoint may legitimately carry: the end of every command the tool forwards
 // (data commands, PINGs and SELECTs of databases that pass the filter), mapped to the database it ran in.
 func allowedEnds(cmds []srcCmd, cfg *e2eCfg) map[int64]endInfo {
+	return allowedEndsFrom(cmds, cfg, 0)
+}
+
+func allowedEndsFrom(cmds []srcCmd, cfg *e2eCfg, startDB int) map[int64]endInfo {
 	ref := cfg.ref()
 	out := map[int64]endInfo{}
-	cur := 0
+	cur := startDB
 	for _, c := range cmds {
 		name := strings.ToLower(c.Name)
 		eff := func() int {
